@@ -90,9 +90,21 @@ CLAIMED = {
    "9 x 9 option pairs over {plain, preimage, ref-counted} x {none, lz4, snappy}, automatic and forced selection, overwrite on/off, content incl. several size classes, a chained 40 kB value, counts 1..3, more than one 10240-operation batch, with an unselected btree column and an unselected multitree column holding two trees that share a node. Oracle: every key, value and count in the result; no extra entries; unselected columns equal (and the shared node survives dereferencing one tree); source intact unless overwriting.",
    "Quick runs a covering third of the product; thorough all. migrate() uses real background threads: only its final outcome is judged. Uniform-key columns with a grown index are not in the content sets.",
    "DESIGN.md §4 C20"),
+ "C05": ("loommc", "model_checking",
+   "stateless model checking of the real code under loom (DPOR, bounded preemptions): writer, pipeline thread(s) and reader as loom threads over a real Db; version oracle inside the model closure",
+   "Writer commits T1{k1,k2} (values moving to other size tiers / multipart) and T2{k1, del k2}; the stages run on one or two pipeline threads; the reader reads k1, k2, k1 with a counter of completed commits sampled around each read. Every schedule with <= 1-2 (thorough 2-3) preemptions is executed on a fresh database: each value must be one some version wrote, not older than the commits completed before the read began, not from a commit that had not started, and versions never decrease across the reads. Hash and btree columns; k1/k2 in one column and in two columns.",
+   "Scheduling points: the crate's Mutex/RwLock/Condvar (loom feature) plus shadow accesses next to mapped-memory reads/stores and the shutdown flag (hook H8); the upgradable read lock admits concurrent readers as parking_lot's does (hook). SC interleavings only; real workers and index growth are not in the C05 scenarios (scripted pipeline thread instead).",
+   "DESIGN.md §3 E3, §4 C05"),
+ "C15": ("loommc", "model_checking",
+   "stateless model checking under loom of the four real worker loops (run as loom threads through a hook) with scaled-down queue thresholds; deadlock = violation; reopen oracle",
+   "Client commits (below / above the scaled commit-queue and log-queue limits, empty transaction, second and third client), shutdown at whatever point the schedule reached, join, drop, reopen without threads: every accepted commit present. Subsets of workers model arbitrarily slow workers. Liveness scenarios: after a commit the client only watches the queue; it must drain without further client activity. loom reports any schedule in which a thread blocks forever (commit never returns, worker never exits, join hangs).",
+   "Scaled thresholds (commit queue 64 B, log queue 512 B, 1 dirty log file) exercise the production code paths with smaller numbers. Quick tier: the all-worker scenarios hit the 40 s wall cap (reported, exhaustive=false); worker-subset, liveness and throttling scenarios complete. No spurious wake-ups.",
+   "DESIGN.md §3 E3, §4 C15"),
 }
 
-NOT_YET = {}
+NOT_YET = {
+ "C14": "the independent file-format parser is not built in this revision; parts of the property are decided elsewhere (storage release and free-list walk in C06, entry counts in C10, scans in C04, value iteration in C07) but C14 itself is not claimed",
+}
 
 def main():
     props = [json.loads(l) for l in open(os.path.join(ROOT, "properties.jsonl"))]
@@ -135,6 +147,7 @@ def main():
             {"name": "admin", "path": "/verif/mc/src/props/c17.rs", "serves_properties": ["C17"], "kind_free_text": "exhaustive sweeps over option combinations, layouts and administration calls"},
             {"name": "handles", "path": "/verif/mc/src/props/c18.rs", "serves_properties": ["C18"], "kind_free_text": "exhaustive open/drop sequences, second-opener injection at I/O boundaries, holder process killed at every recovery step"},
             {"name": "migrate", "path": "/verif/mc/src/props/c20.rs", "serves_properties": ["C20"], "kind_free_text": "exhaustive sweep over migration configurations through the real migrate()"},
+            {"name": "loommc", "path": "/verif/mc-loom", "serves_properties": ["C05", "C15"], "kind_free_text": "loom (vendored 0.5.6 with MAX_THREADS 8) over the real crate built with its loom feature; fresh OS thread per execution stepped through loom's checkpoint file"},
             {"name": "seqmc", "path": "/verif/mc", "serves_properties": sorted([k for k, v in CLAIMED.items() if "seqmc" in v[0]]),
              "kind_free_text": "bounded exhaustive graph search over histories x pipeline-stage schedules of the real Db in stepping mode, reference models, pipeline model PM in lock-step"},
         ],
